@@ -275,6 +275,16 @@ def explore_shape(prop, SH, OR, shape, validate=True, max_paths=None):
                     res['mismatches'].append(dict(input=jsonable(cinp), symbolic=sym_obs, real=real_obs))
                 else:
                     res['validated'] += 1
+                if hasattr(prop, 'witness_clauses'):
+                    # environment kernels that the symbolic run over-approximates: the solver's witness of this path is also
+                    # run through the unmodified kernels; a clause that fails there is a counterexample candidate like any
+                    # other (it is replayed and judged by the concrete oracle before anything is printed)
+                    with _quiet():
+                        wcl = prop.witness_clauses(OR, shape, cinp)
+                    for name, ok in wcl:
+                        if not ok:
+                            res['ces'].append(dict(clause=name, input=jsonable(cinp)))
+                            break
             for name, cond in clauses:
                 res['clauses'][name] = res['clauses'].get(name, 0) + 1
                 m = eng.check(cond)
